@@ -201,6 +201,9 @@ func c19Eval(c *core.Ctx, t *rapid.T, val *oas.Validator, s *schema.Schema, onPr
 	}
 	irMsg := s.AllMessages()[s.Pkg+".CheckRequest"]
 	for _, f := range irMsg.Fields {
+		if f.Oneof != "" {
+			continue // variants of the discriminated oneof carry no rules here
+		}
 		fd := md.Fields().ByName(protoreflect.Name(f.Name))
 		prop := oas.Obj(comp["properties"])[fd.JSONName()]
 		if prop == nil {
